@@ -1,12 +1,25 @@
 """C06 -- a reading is discarded iff NIS > k*sqrt(2m)+m; a discard changes nothing."""
+import json
+
 import numeric
 
 
 def _post(ctx, scns, results):
     """after the Python replay: the same behaviours in the generated C++ filter, then the helper / boundary agreement"""
     import cppcheck
-    n = 8 if ctx.quick else 200
-    rc = cppcheck.replay_cpp(ctx, scns[:n], cse_settings=(True,), kind="ekf")
+    n = 10 if ctx.quick else 200
+    # cover every editing threshold (it is rendered into the generated Config) with behaviours that contain a rejected update
+    byk = {}
+    for s_ in scns:
+        if any(st.get("outcome") == "rejected" for st in s_["steps"]):
+            byk.setdefault(json.dumps(s_["def"]["k"]), []).append(s_)
+    pick = []
+    for r in range(3):
+        for k_, lst in sorted(byk.items()):
+            if r < len(lst) and len(pick) < n:
+                pick.append(lst[r])
+    pick += [s_ for s_ in scns if s_ not in pick][: max(0, n - len(pick))]
+    rc = cppcheck.replay_cpp(ctx, pick, cse_settings=(True,), kind="ekf")
     extra = cppcheck.record(ctx, rc, key_prefix="cpp:")
     extra.update(gate_agreement(ctx))
     return extra
